@@ -347,6 +347,27 @@ func (s *Server) Tickets() []TicketRec {
 	return out
 }
 
+// NotePartial records that the first bytes of a client's message — which the
+// server never got to parse as a handshake because the connection failed or
+// the message stayed incomplete — carried a complete ticket in the clear.  It
+// counts as a presentation of that ticket: a later handshake with the same
+// ticket is logged with Reuse set.
+func (s *Server) NotePartial(buf []byte) (id int, reuse, known bool) {
+	if len(buf) < TicketLen {
+		return -1, false, false
+	}
+	var t [TicketLen]byte
+	copy(t[:], buf)
+	s.mu.Lock()
+	defer s.mu.Unlock()
+	rec := s.tickets[t]
+	if rec == nil {
+		return -1, false, false
+	}
+	rec.Presented++
+	return rec.ID, rec.Presented > 1, true
+}
+
 // IssueTicket creates a ticket and returns the body of the NewTicket packet
 // (master key | ticket).
 func (s *Server) IssueTicket() ([]byte, TicketRec) {
